@@ -341,6 +341,10 @@ type SeqOp struct {
 	Client int  `json:"client"`
 	Local  bool `json:"local,omitempty"` // register/unregister through Server.NewService / Service.Terminate
 	Pick   int  `json:"pick"`            // choose an id among those handed out (+-1 variants)
+	// Vanish: this many further subscribers of serviceAdded/serviceRemoved drop
+	// their connection without a word right before the operation: what the
+	// directory cannot tell them any more is no reason for the operation to fail
+	Vanish int `json:"vanish,omitempty"`
 }
 
 type SeqCase struct {
@@ -363,6 +367,9 @@ func genSeq(t *rapid.T) SeqCase {
 			op.In.Valid = false
 		}
 		op.Local = (op.In.Op == "register" || op.In.Op == "unregister") && rapid.IntRange(0, 2).Draw(t, "local") == 0
+		if (op.In.Op == "ready" || op.In.Op == "unregister" || op.In.Op == "register") && rapid.IntRange(0, 3).Draw(t, "vanish") == 0 {
+			op.Vanish = rapid.IntRange(1, 5).Draw(t, "nvanish")
+		}
 		c.Ops = append(c.Ops, op)
 	}
 	return c
@@ -419,6 +426,18 @@ func checkSeq(c SeqCase) error {
 					}
 				}
 			}
+		}
+		if op.Vanish > 0 {
+			var gone []func()
+			for k := 0; k < op.Vanish; k++ {
+				if _, closeIt, err := newObserver(w); err == nil {
+					gone = append(gone, closeIt)
+				}
+			}
+			for _, closeIt := range gone {
+				closeIt()
+			}
+			vt.Label("subscribers-vanished-before-an-operation")
 		}
 		var out Out
 		switch {
